@@ -25,6 +25,9 @@ NA = {
 
 # property -> (category, technique, level text, level note, design ref)
 CLAIMED = {
+    "C09": ("model_checking", "verdicts of the real comparator vs z3 integer-point search over the whole box (bounded SMT)",
+            "Bounded SMT: the real geq_leq_zero/diff_geq_leq_zero are called on ~550 (quick) / ~4500 (thorough) formulas (grammar with ceilings/Min/Max plus the real model's formulas for symbolic tile shapes); for every non-UNKNOWN verdict z3 searches the integer box [1,hi]^k (hi<=12/24) for a point with the forbidden sign; unsat = verdict sound on the whole box.",
+            "Derivative verdicts are judged on the expression the comparator derives itself, excluding Min/Max tie points; terms_do_not_cross_zero=True not exercised; three classes of unsound verdicts found on the unchanged tree are recorded in known_findings.json (ceilings dropped, Heaviside all-0/all-1 partition, sympy 1.14 relational evaluation on integer symbols).", "4/C09"),
     "C28": ("model_checking", "real Mappings accessors executed on symbolic cells (object-dtype DataFrame), identities decided by z3",
             "SMT over unbounded symbols: on the column sets of real 1-3 Einsum results every numeric cell is a symbol; the real energy/actions/latency/resource_usage accessors run for every per_* flag combination and z3 shows each breakdown sums to the same total, latency() is the sum over Einsums of the max over components, resource_usage() the max reservation, for all cell values.",
             "Two stubs (_coerce_numeric identity, np.maximum -> Max). 'Equals the Total column' relies on the producer invariant Total == sum of parts (proven for one Einsum under C05, validated numerically on the real rows here). One-row frames.", "4/C28"),
